@@ -89,7 +89,7 @@ def d_valid_configs(d, with_ctcs=True):
             for r in f.get('relations', []):
                 k = sum(1 for c in r['children'] if c['name'] in sel)
                 if f['name'] in sel:
-                    if not (r['min'] <= k <= r['max']):
+                    if not (r['min'] <= k and (r['max'] == -1 or k <= r['max'])):      # -1: the unbounded maximum '*'
                         ok = False
                 elif k != 0:
                     ok = False
@@ -107,6 +107,18 @@ def d_valid_configs(d, with_ctcs=True):
     return out
 
 
+def star_models():
+    """models with a group whose maximum is the unbounded '*', stored as -1 (what the UVL reader returns for [a..*])"""
+    leaf = lambda n: {'name': n, 'relations': []}
+    yield {'root': {'name': 'R', 'relations': [{'min': 1, 'max': -1, 'children': [leaf('A'), leaf('B'), leaf('C')]}]}, 'ctcs': []}
+    yield {'root': {'name': 'R', 'relations': [{'min': 0, 'max': -1, 'children': [leaf('A'), leaf('B')]},
+                                               {'min': 0, 'max': 1, 'children': [leaf('O')]}]}, 'ctcs': []}
+    yield {'root': {'name': 'R', 'relations': [{'min': 1, 'max': 1, 'children': [
+        {'name': 'X', 'relations': [{'min': 2, 'max': -1, 'children': [
+            leaf('A'), {'name': 'B', 'relations': [{'min': 0, 'max': 1, 'children': [leaf('D')]}]}, leaf('C')]}]}]}]}, 'ctcs': []}
+
+
+UNBOUNDED = 'C13_unbounded_group'
 LAST_RUN = []
 
 
